@@ -202,7 +202,10 @@ func c06(c *core.Ctx) {
 	c.Analysed(fname(unpack), fname(pack))
 	kindOfRead := map[string]string{"propertyReadBool": "byte", "propertyReadUint16": "uint16", "propertyReadUint32": "uint32", "propertyReadUTF8String": "string", "propertyReadBinary": "string"}
 	kindOfWrite := map[string]string{"propertyWriteByte": "byte", "propertyWriteUint16": "uint16", "propertyWriteUint32": "uint32", "propertyWriteString": "string"}
-	type pr struct{ field, kind string; dupArg bool }
+	type pr struct {
+		field, kind string
+		dupArg      bool
+	}
 	dec, enc := map[int64]pr{}, map[int64]pr{}
 	// decoder: per case tag
 	ssax.Instrs(unpack, false, func(_ *ssa.Function, in ssa.Instruction) {
